@@ -3300,8 +3300,16 @@ class Engine:
             # a text-building method of a str literal (`' AND '.join(parts)`, `'{}x'.format(a)`) where the contract does not track
             # text: these methods are pure and total on their str receiver (a non-str argument raises TypeError - not modelled:
             # the arguments were evaluated above, so their own effects and obligations stand); the text itself is opaque
-            for k in node.keywords:
-                self.ev(k.value, st)
+            kws = {k.arg: self.ev(k.value, st) for k in node.keywords}
+
+            def concrete(v):
+                return isinstance(v, (str, int, bool)) or v is None or (isinstance(v, tuple) and all(isinstance(x, str) for x in v))
+
+            if all(concrete(a) for a in args) and all(concrete(v) for v in kws.values()) and None not in kws:
+                try:
+                    return getattr(recv, meth)(*[list(a) if isinstance(a, tuple) else a for a in args], **kws)  # all operands concrete: the text itself
+                except Exception:  # pylint: disable=broad-except
+                    raise Undecided('str.%s on concrete operands raises' % meth)
             return z3.Const(fresh_name('text_' + meth), U)
         raise Undecided('method %s on %r not modelled (line %d)' % (meth, recv, node.lineno))
 
